@@ -367,6 +367,23 @@ theorem C13_master_array_is_buffer (ops : List Op) :
   exact slotAt_above a i L.wf (by rw [link_count L]; exact hi)
 
 open StepModel.GenNodeArray in
+/-- Slot by slot: after any history the pointer `operator[]( i )` reads from the block is the `i`-th node of the list model
+(`GetMgrNode( i )`), for EVERY index `i` — a node below the count, null at and above it. -/
+theorem C13_buffer_slot_is_node (ops : List Op) (i : Nat) :
+    ∃ a, runBuf GenNodeArray.init (traceOf init ops) = some a ∧
+      slotAt a i = ((run init ops).nodes[i]?).map (·.nid) := by
+  obtain ⟨a, h1, L⟩ := link_run link_init ops
+  refine ⟨a, h1, ?_⟩
+  by_cases hi : i < a.count
+  · rw [slotAt_below a i L.wf hi, L.view]
+    simp only [ptrs, List.getElem?_map]
+    cases (run init ops).nodes[i]? <;> rfl
+  · have hc := link_count L
+    rw [slotAt_above a i L.wf (by omega)]
+    have : (run init ops).nodes[i]? = none := List.getElem?_eq_none (by omega)
+    rw [this]; rfl
+
+open StepModel.GenNodeArray in
 /-- growth: `Check` always leaves room for the slot `Append` is about to write, whatever the default size is -/
 theorem C13_buf_append_in_block (a : Arr) (gn : Nat) (h : Wf a) : (insertAtEnd a gn).isSome := by
   obtain ⟨a', h1, _⟩ := insertAtEnd_spec a gn h
